@@ -14,3 +14,8 @@ for nm, what, b in [('ops_str_ptr', 'variant(2-byte string) vs C string "ab": si
                     ('ops_int_scalar', 'variant(int64) vs int32 scalar: coherence laws and value order', 'all values'),
                     ('arr_eq', 'array equality [x,y] vs [z,w] / [z]', 'all byte-sized x,y,z,w')]:
     OBS.append(Ob(['C18'], nm, 'doc', 'harness/doc_ops.c', 'h_' + nm, unwind=8, desc=what, bound=b + '; public API on an arena allocator', **K3))
+OBS += [
+ Ob(['C02'], 'ser_arr', 'doc', 'harness/doc_ser.c', 'h_ser_arr', unwind=14, desc='serializeJson([i,"s0s1",u], buf, cap) and measureJson: prefix / count / guard bytes / conditional NUL for every capacity', bound='i in -128..127, u in 0..255 (1-4 characters each), both string bytes (all 256 values), capacity 0..length+2', **dict(K3, hunwind=44)),
+ Ob(['C02'], 'ser_scalar', 'doc', 'harness/doc_ser.c', 'h_ser_scalar', unwind=8, desc='serializeJson(integer scalar, buf, cap): prefix / count / NUL for every capacity', bound='values -128..127, capacity 0..length+2', **dict(K3, hunwind=34)),
+ #Ob(['C02'], 'ser_raw_nonfinite', 'doc', 'harness/doc_ser.c', 'h_ser_raw_nonfinite', unwind=10, desc='raw values verbatim; NaN / +-Infinity serialize as null (default configuration)', bound='raw value of 0..3 symbolic bytes, all capacities', **dict(K3, hunwind=24)),
+]
